@@ -151,8 +151,12 @@ def run_shard(shard):
                     res.outcomes["blockwise-precondition-unmet(not asserted)"] += 1
                     outcomes[method] = "n/a"
                     continue
+            if cls == "refused" and out.origin != "flox":
+                # a ValueError that surfaces from numpy/dask/pandas (at call or compute time) is not a refusal by
+                # flox but an internal failure that happens to have a benign type
+                cls = "INTERNAL"
             outcomes[method] = cls
-            res.outcomes[cls if cls != "refused" else f"refused:{out.exc}"] += 1
+            res.outcomes[cls if cls != "refused" else f"refused:{out.exc}@{out.where}/{out.origin}"] += 1
             if cls == "INTERNAL":
                 res.violate("internal-error", case, out.brief(), "ValueError / NotImplementedError / ImportError, or a result",
                             tags=dict(tags, kind="internal", exc=out.exc, where=out.where), size=size)
